@@ -537,7 +537,8 @@ class Evaluator:
         """inst[args] / inst(args): create or fetch the ItemSpace."""
         sf = inst.base.formula
         if sf is None:
-            raise EvalRaise("AttributeError" if False else "TypeError", "no formula")
+            # a space without a parameter formula: modelx fails on formula.signature of None
+            raise EvalRaise("AttributeError", "no formula")
         key = self.bind(sf["params"], args, kwargs)
         try:
             hash(key)
